@@ -220,6 +220,29 @@ FOREIGN = [' ', '\n', '_', 'é', '٣', '²', '\t', '\r', '١', '１', '/', '=', 
 HOSTILE = FOREIGN + [':', '-', ':', '-', '\n', '٣', '1', 'a', '~', '.', '+']
 
 
+def _foreign_wide():
+    """Non-ASCII characters a sloppy character class is most likely to let through: every code point whose
+    lower/upper/casefold/NFKC form contains an ASCII letter or digit (KELVIN SIGN, LONG S, DOTLESS I, fullwidth and
+    superscript digits, ...), plus a strided sample of every other non-ASCII letter and number."""
+    import unicodedata
+    out = []
+    for cp in range(0x80, 0x30000):
+        ch = chr(cp)
+        cat = unicodedata.category(ch)
+        if cat[0] not in 'LN':
+            continue
+        forms = ch.lower() + ch.upper() + ch.casefold() + unicodedata.normalize('NFKC', ch)
+        if any(c.isascii() and c.isalnum() for c in forms):
+            out.append(ch)
+        elif cp % 97 == 0:
+            out.append(ch)
+    return out
+
+
+FOREIGN_WIDE = _foreign_wide()
+FOREIGN_TEMPLATES = ['1%s', '%s', '%s1', '1%s-1', '1-%s', '1-1%s', '%s:1', '1%s:1', '1:1%s', '1.0~%s+b1']
+
+
 def gen_valid(r, maxparts=4):
     """A syntactically valid version (classify == 'accept') with structural variety."""
     while True:
@@ -329,6 +352,17 @@ def cases(ctx):
         for t in itertools.product(SMALL_ALPHABET, repeat=k):
             if ctx.mine(i + i // 14):
                 yield {'kind': 'str', 's': ''.join(t), 'src': 'enum-small'}
+            i += 1
+    # every case-fold / compatibility partner of an ASCII letter or digit (and a sample of other non-ASCII letters
+    # and numbers) in every position class of a version string
+    if ctx.shard == 0:
+        ctx.extra['exhaustive_subspaces'].append(
+            'constructor: %d non-ASCII letters/numbers (all that case-fold or NFKC-normalise to ASCII alphanumerics) x %d '
+            'position templates' % (len(FOREIGN_WIDE), len(FOREIGN_TEMPLATES)))
+    for ch in FOREIGN_WIDE:
+        for t in FOREIGN_TEMPLATES:
+            if ctx.mine(i + i // 14):
+                yield {'kind': 'str', 's': t % ch, 'src': 'enum-foreign'}
             i += 1
     r = ctx.rng('strings')
     for _ in range(ctx.size(RANDOM_STRINGS['quick'], RANDOM_STRINGS['thorough'])):
